@@ -459,7 +459,7 @@ def decl_signature(d):
             parts.append("cvq=" + d["cvq"])
         if d.get("virtual"):
             parts.append("virtual")
-        if not d.get("pnames", True):
+        if not d.get("pnames", True) and any(p[0] != "ell" for p in d["params"]):
             parts.append("unnamed-params")
         site = "" if d["kind"] == "func" else ("static-method:" if d["kind"] == "smethod" else "method:")
         return site + (",".join(parts) or "void(void)")
@@ -500,7 +500,7 @@ class Scope:
         for bi, b in enumerate(self.bases):
             r = b.find_local(name, seen)
             if r:
-                if r[1] == "injected":
+                if r[1] in ("injected", "injected-base"):
                     return r[0], "injected-base"
                 if len(self.bases) == 1:
                     return r[0], "base"
